@@ -42,6 +42,20 @@ func TestStandinC16RoundTrip(t *testing.T) {
 		for m := range u.MultipliersValue {
 			values = append(values, m-1, m, m+1, 2*m+1)
 		}
+		// the upper end of the 64-bit range: integers a float64 cannot represent (2^k +- small odd offsets, k >= 53),
+		// the maximum, and a fixed pseudo-random sample of 63-bit values
+		for k := uint(52); k <= 62; k++ {
+			p := int64(1) << k
+			values = append(values, p-3, p-1, p, p+1, p+3, p+p/2+1)
+		}
+		values = append(values, math.MaxInt64, math.MaxInt64-1, math.MaxInt64-2)
+		x := uint64(0x9E3779B97F4A7C15)
+		for i := 0; i < 500; i++ {
+			x ^= x << 13
+			x ^= x >> 7
+			x ^= x << 17
+			values = append(values, int64(x>>1))
+		}
 		for _, v := range values {
 			if v < 0 {
 				continue
@@ -79,7 +93,7 @@ func TestStandinC16RoundTrip(t *testing.T) {
 			}
 		}
 	}
-	fmt.Printf("STANDIN C16 checked=%d failures=%d bound=[0,%d]+powers of ten+multiplier boundaries; floats k/4, k<=40000, multiplier sums\n", checked, failures, n)
+	fmt.Printf("STANDIN C16 checked=%d failures=%d bound=[0,%d]+powers of ten+multiplier boundaries+2^52..2^63 boundaries+500 fixed 63-bit samples; floats k/4, k<=40000, multiplier sums\n", checked, failures, n)
 	if failures > 0 {
 		t.Fail()
 	}
